@@ -40,6 +40,17 @@ def cases(draw, max_steps=12):
     scn["warm"] = draw(st.sampled_from([False, False, True]))
     # plug-in files given by path: unique file names, or the same file name in a directory per slot
     scn["same_stem"] = draw(st.booleans())
+    # the first release may come some steps into the run: the model steps with an empty state until then
+    late = draw(st.sampled_from([0, 0, 1, 2, 3]))
+    if late and scn["time"]["nsteps"] > late + 1 and not scn["warm"]:
+        for r in scn["release"]["rows"]:
+            r["step"] = min(r["step"] + late, scn["time"]["nsteps"] - 1)
+        if scn["release"]["continuous"]:
+            f = scn["release"]["freq"]
+            for r in scn["release"]["rows"]:
+                r["step"] = late + ((r["step"] - late) // f) * f
+        scn["release"]["rows"].sort(key=lambda r: (r["step"], r["tag"]))
+        scn["late_first_release"] = late
     return scn
 
 
@@ -149,6 +160,30 @@ def oracle(scn) -> core.CaseResult:
             nrec_file = len(e2e.read_sparse(d / outname)["times"])
         else:
             nrec_file = sum(len(e2e.read_sparse(d / n)["times"]) for n in e2e.list_outputs(d))
+    # forcing-derived values in a record are valid at the record's time: the scalar copied to the state is the
+    # value of the latest frame at or before that time in the particle's own cell (at one of the levels)
+    if scn["forcing"]["temp"] and meta.get("extra"):
+        F = meta["extra"]["temp"]
+        ftimes = [np.datetime64(t, "s") for t in meta["ftimes"]]
+        for c in calls:
+            if not (c[1] == "output" and c[2] == "write" and len(c) > 6 and "temp" in c[6]):
+                continue
+            t = np.datetime64(meta["start"], "s") + np.timedelta64(int(c[3]) * sim.DT, "s")
+            fr = max(k for k, ft in enumerate(ftimes) if ft <= t)
+            snap = c[6]
+            for p_, (x, y, tv, al) in enumerate(zip(snap["X"], snap["Y"], snap["temp"], snap["alive"])):
+                if not al:
+                    continue
+                from vlib import roms as _roms
+
+                cands = [F[fr, k, j, i] for i in _roms.cell_candidates(float(x)) for j in _roms.cell_candidates(float(y))
+                         for k in range(F.shape[1])]
+                if not res.check(any(abs(tv - cv) <= 1e-6 * max(1.0, abs(cv)) for cv in cands), "record_forcing_not_current",
+                                 f"record of step {c[3]} ({t}): temp of pid {int(snap['pid'][p_])} at ({x}, {y}) is {tv}; "
+                                 f"the frame in force ({ftimes[fr]}) has {sorted(set(round(float(v), 4) for v in cands))} there"):
+                    break
+        if scn.get("late_first_release"):
+            res.cls("first_release_after_the_start")
     decoys = [c for c in calls if c[5] != "real"]
     res.check(not decoys, "decoy_ran", f"a same-named module from sys.path ran instead of the file given by path: {decoys[:2]}")
     recorded = [s for s in SLOTS if spell[s] != "stock"]
